@@ -470,12 +470,12 @@ func (vr *variableResolver) resolve(ctx *ExecutionContext) (*Value, error) {
 				if fnArg != typeOfValuePtr {
 					// Function's argument is not a *pongo2.Value, then we have to check whether input argument is of the same type as the function's argument
 					if !isVariadic {
-						if fnArg != reflect.TypeOf(pv.Interface()) && fnArg.Kind() != reflect.Interface {
+						if !argumentFits(fnArg, pv) {
 							return nil, fmt.Errorf("function input argument %d of '%s' must be of type %s or *pongo2.Value (not %T)",
 								idx, vr.String(), fnArg.String(), pv.Interface())
 						}
 					} else {
-						if fnArg != reflect.TypeOf(pv.Interface()) && fnArg.Kind() != reflect.Interface {
+						if !argumentFits(fnArg, pv) {
 							return nil, fmt.Errorf("function variadic input argument of '%s' must be of type %s or *pongo2.Value (not %T)",
 								vr.String(), fnArg.String(), pv.Interface())
 						}
@@ -864,4 +864,18 @@ func (p *Parser) parseVariableElement() (INode, *Error) {
 	}
 
 	return node, nil
+}
+
+// argumentFits reports whether the evaluated argument can be passed for a parameter of type
+// fnArg: it has exactly that type, or fnArg is an interface type that the argument's type
+// implements (a nil argument fits every interface).
+func argumentFits(fnArg reflect.Type, pv *Value) bool {
+	argType := reflect.TypeOf(pv.Interface())
+	if fnArg == argType {
+		return true
+	}
+	if fnArg.Kind() != reflect.Interface {
+		return false
+	}
+	return argType == nil || argType.Implements(fnArg)
 }
